@@ -25,6 +25,12 @@ package segment
 //@   prove[C09.readme-header-sizes] frameHeaderLen == 8 && fileHeaderLen == 32
 //@   prove[C09.readme-magic] magic == 0x58eb6b0d
 
+//@ -- [C09.init-crc]/[C09.create-header-pending] follow the writer: the file header
+//@ -- is part of the first batch and is covered by the first commit's CRC. The
+//@ -- README must say the same, an independent decoder is built from it.
+//@ doc[C09.readme-first-commit-crc] README.md contains "or, for the first commit frame of a file, since the start of the file: the file header is written as part of the first batch and is covered by its CRC"
+//@ doc[C09.readme-first-commit-crc-not-after-header] README.md lacks "or just after the file header"
+
 //@ lemma pad_spec_equiv
 //@   props C09 C15
 //@   vars n int
